@@ -24,6 +24,8 @@ def h13_chain(S, attempts=3):
     rttl = S.int("result_ttl", SEC, HUNDRED_Y) if has_ttl else None
     fails = [S.bool(f"fail{i}") for i in range(attempts)]
     faults = [S.flag(f"store_fails{i}") for i in range(attempts)]
+    # the first attempt may also "succeed" with a value the converter cannot encode: that counts as a failed execution
+    unenc0 = S.flag("attempt0_returns_unencodable")
     t0 = S.int("start", Y2000, Y2050)
     gaps = [S.int(f"gap{i}", 0, 3600 * SEC) for i in range(2 * attempts)]
     clock = PinnedClock(t0)
@@ -48,6 +50,8 @@ def h13_chain(S, attempts=3):
             i = len(runs)
             runs.append(i)
             clock.advance(gaps[2 * i])           # the execution takes some time
+            if unenc0 and i == 0:
+                return {1, 2, 3}                 # a set is not JSON serialisable
             if fails[i]:
                 raise ValueError(f"boom{i}")
             return {"attempt": i}
@@ -85,7 +89,8 @@ def h13_chain(S, attempts=3):
     for s in out["snap"]:
         i = s["i"]
         S.cover("attempt-%d" % i)
-        failed = bool(fails[i])
+        unenc = bool(unenc0) and i == 0
+        failed = True if unenc else bool(fails[i])
         # disposition is what the ladder prescribes, whatever happened to the store
         want = "requeue" if (failed and i < attempts - 1) else ("nack" if failed else "ack")
         S.check("disposition-unaffected-by-result-store", s["ops"] == [want], info=f"attempt {i}: {s['ops']} expected {want}; store error {s['err']!r}")
@@ -106,7 +111,10 @@ def h13_chain(S, attempts=3):
         last_written = b
         S.check("job-result-returns-the-bucket", s["job_result"] == b or s["job_result"] is b)
         S.check("success-flag-of-this-attempt", b.success == (not failed), info=f"attempt {i}: success={b.success}")
-        if failed:
+        if unenc:
+            S.cover("unencodable-return")
+            S.check("unencodable-return-recorded-as-failure", b.exception == "TypeError", info=f"{b.data!r} {b.exception!r}")
+        elif failed:
             S.check("exception-text-and-type", b.data == f"boom{i}" and b.exception == "ValueError", info=f"{b.data!r} {b.exception!r}")
         else:
             S.check("encoded-return-value", json.loads(b.data) == {"attempt": i} and b.exception is None, info=f"{b.data!r}")
